@@ -332,8 +332,11 @@ def twin_long_file(draw, min_segments=102, max_segments=140, types=('i16', 'f64'
     segments) and diverge only in the tail: their cumulative-offset tables agree in the first hundred entries."""
     nch = draw(st.integers(2, 3))
     chans = [(make_path('g', 'c%d' % i), draw(st.sampled_from(list(types))), i) for i in range(nch)]
-    nseg = draw(st.integers(min_segments, max_segments))
-    tail = draw(st.integers(1, nseg - 100))
+    nseg = draw(st.one_of(st.sampled_from([100, 101, 200]), st.integers(min_segments, max_segments)))
+    # the channels' per-segment counts agree up to (excluding) segment `first_diff`; the block-wise comparison of their
+    # offset tables works in blocks of 100, so divergence at entries 97..nseg-1 covers block ends and partial tail blocks
+    first_diff = draw(st.integers(97, nseg - 1))
+    tail = nseg - first_diff
     counters = {}
     segs = []
     for si in range(nseg):
